@@ -737,7 +737,7 @@ def run(ctx):
         "landscapes/visuals": common.source_digest("persim/landscapes/visuals.py",
                                                    ["plot_landscape_exact_simple", "plot_landscape_approx_simple"])}
     cases = corpus()
-    for _ in range(ctx.n(600, 9000)):
+    for _ in range(ctx.n(450, 9000)):
         cases.append(gen_dgms_case(ctx) if r.random() < 0.55 else gen_match_case(ctx))
     lines = [line_dgms(c) if c["op"] == "dgms" else line_match(c) for c in cases]
     answers = ask(lines)
@@ -809,7 +809,7 @@ def report(ctx, rs, what, case, failed, line, diff):
 
 
 def landscapes(ctx, rs):
-    cases = [gen_land_case(ctx) for _ in range(ctx.n(60, 800))]
+    cases = [gen_land_case(ctx) for _ in range(ctx.n(50, 800))]
     done = []
     for case in cases:
         got = run_land(case)
@@ -857,21 +857,31 @@ def replay(ctx, rep):
 
 
 MANIFEST = {
-    "text": "Proof: Lean theorems about a pure model of plot_diagrams / bottleneck_matching / wasserstein_matching (arguments -> "
-            "list of abstract artists tagged with the axes they land on, limits, labels, title, legend) over any linear ordered "
-            "field, for diagrams and matchings of every size and every option combination: one scatter per plotted diagram with "
-            "coordinates (b,d) or (b,d-b), infinite deaths at b_inf with y_down < b_inf < y_up and the infinity line drawn iff "
-            "needed, limits containing every finite point without xy_range, xy_range respected, labels/title/legend as requested, "
-            "one segment per non-(-1,-1) row, all on the given axes, to the other point or to ((b+d)/2,(b+d)/2), arg-max row "
-            "styled distinctly; decide-proved counterexamples for the code before 64802c3 (plt.plot) and before 59a7acc (string "
-            "label indexed by plot_only). The model is tied to the code on every run by reading every artist back from a two-axes "
-            "Agg figure (the other axes current, or ax=None) and comparing with the model at Rat with a real float32 cast.",
+    "text": "Proof: 21 Lean theorems about a pure model of plot_diagrams / bottleneck_matching / wasserstein_matching (arguments -> "
+            "list of abstract artists tagged with the axes they land on, limits, labels, title, legend flag) over any linear ordered "
+            "field and any float32 cast, for diagrams and matchings of every size and every option combination: scatters_eq / "
+            "one_scatter_per_diagram (one collection per plotted diagram, in order, coordinates (b,d) or (b,d-b), infinite deaths at "
+            "b_inf; guard: one label per diagram), inf_line_inside (y_down < b_inf < y_up for positive height; the infinity line is "
+            "drawn exactly once iff some plotted death is infinite), limits_contain_points (no xy_range; lifetime mode under b <= d, "
+            "with lifetime_guard_needed showing the guard is necessary), xy_range_respected (x exactly; y exactly, in lifetime mode "
+            "only its height), labels_title_legend + selected_spec (plot_only as Python indexing; each plotted diagram carries the "
+            "label requested for it), diagram_plot_on_given_axes, segments_match_rows / _wasserstein (one segment per row that is not "
+            "(-1,-1), in row order, ALL on the given axes, joining the two points or a point and ((b+d)/2,(b+d)/2) from c*c = 1/2, "
+            "first-arg-max row styled distinctly; real_constants: cos/sin(pi/4) meet the hypotheses), *_succeeds (the model rejects "
+            "only invalid indices / nothing to draw), and decide-proved counterexamples for the code before 64802c3 (plt.plot: a row "
+            "with i = -1 lands on pyplot's current axes) and before 59a7acc (single string label indexed by plot_only). The model is "
+            "tied to the code on every run by reading every artist, limit, label, title and legend text back from BOTH axes of a "
+            "two-axes Agg figure (the other axes current, or ax=None) and comparing with the model run at Rat with a real "
+            "round-to-nearest-even float32 cast; the statement's clauses are additionally evaluated in plain Python on every case.",
     "note": "Trusted: Lean kernel + Mathlib, axioms propext/Classical.choice/Quot.sound; the correspondence harness; matplotlib as a "
-            "contract (an artist added to an Axes is drawn there; legend order; set_xlim). Not modelled: the 3-D landscape plots, "
-            "colormap/style side effects (plt.style.use), size/ax_color beyond a read-back check, rendering. The 2-D landscape "
-            "plots have a model (one labelled line per depth) and a correspondence but no theorem beyond definitional ones. "
-            "Float32 rounding inside the range computation is outside the theorems (1e-6 tolerance). Observation outside the "
-            "statement: bottleneck()/wasserstein() index the inf-filtered diagrams, so plotting a returned matching over diagrams "
-            "that still contain infinite points draws shifted points; the matching stream uses finite diagrams.",
-    "technique": "Lean 4 theorems over a hand-written artist-list model + differential read-back of matplotlib artists",
+            "contract (an artist added to an Axes is drawn there; Axes.legend lists labelled artists in insertion order; set_xlim "
+            "stores its arguments unless they coincide). Not modelled: the 3-D landscape plots, colormap/style side effects "
+            "(plt.style.use), size/ax_color beyond a read-back check, show, rendering. The 2-D landscape plots have a model (one "
+            "labelled line per depth through the critical points / over linspace(start,stop,len)) and a correspondence, no theorem. "
+            "[T] only: float32 rounding inside the range computation (1e-6 relative), legend texts, styles. Outside the statement, "
+            "reported: bottleneck()/wasserstein() index the inf-FILTERED diagrams, so plotting a returned matching over diagrams that "
+            "still contain infinite points draws shifted points (the matching stream uses finite diagrams); plot_diagrams and "
+            "bottleneck_matching raise ValueError when every plotted diagram is empty (no range), wasserstein_matching does not; a label "
+            "list shorter than the diagrams silently drops diagrams (zip).",
+    "technique": "Lean 4 theorems over a hand-written artist-list model + differential read-back of matplotlib artists on two axes",
 }
